@@ -40,6 +40,25 @@ fn main() {
         assert_eq!(*r, seq, "concurrent first use of proportion::ci disagrees with a sequential call");
     }
 
+    // ---------------- an answer depends on the state only, not on what the thread was asked before
+    {
+        use stats_ci::comparison::Unpaired;
+        let x = Unpaired::<f64>::from_iter(&vec![1.0, 2.5, 3.0, 7.5, 9.0], &vec![2.0, 2.5, 4.0]).unwrap();
+        let y = Unpaired::<f64>::from_iter(&vec![1.0, 2.5, 3.0, 7.5, 9.5], &vec![2.0, 2.5, 4.5]).unwrap();
+        let (x1, x2, y1) = (x.clone(), x.clone(), y.clone());
+        let c90 = Confidence::new_two_sided(0.9);
+        let busy = thread::spawn(move || {
+            // asked about a neighbouring state (and a one-sample state) first
+            let _ = format!("{:?}", y1.ci_mean(c90));
+            let a = Arithmetic::<f64>::from_iter(&vec![1.0, 2.0, 4.0, 8.0, 16.0, 32.0]).unwrap();
+            let _ = format!("{:?}", a.ci_mean(c90));
+            format!("{:?}", x1.ci_mean(c90))
+        });
+        let fresh = thread::spawn(move || format!("{:?}", x2.ci_mean(c90)));
+        let (rb, rf) = (busy.join().unwrap(), fresh.join().unwrap());
+        assert_eq!(rb, rf, "the same Unpaired state answers differently on a thread that was asked other questions before");
+    }
+
     // ---------------- S2: channel fan-in
     let queue = Arc::new(Mutex::new((0..CHUNKS.len()).collect::<VecDeque<usize>>()));
     let (tx, rx) = mpsc::channel::<(usize, Arithmetic<f64>)>();
